@@ -192,9 +192,17 @@ pub fn replay_room_revocation(room: crate::database::room::Room, key: Vec<u8>) -
         let remote_rooms: HashSet<Uid> = HashSet::new();
         let _ = LocalPeerService::process_local_event(LocalEvent::RoomDefinitionChanged(Arc::new(room)), &remote_key, &event_sender, &remote_rooms, &iqs).await;
         let _ = event_rx.try_recv();
-        tokio::time::sleep(std::time::Duration::from_millis(60)).await;
-        query_sender.send(QueryProtocol { id: 2, query: Query::RoomNode(rid) }).await.unwrap();
-        let after = served(tokio::time::timeout(std::time::Duration::from_secs(5), answers.recv()).await.ok().flatten());
+        // no wall clock: the revocation and the requests reach the service task on two queues of one `select!`, which picks at
+        // random among the ready ones; the revocation was queued first, so every request that is still served gave the task one more
+        // draw at taking it.  The room counts as still served only if 64 requests in a row are answered with data.
+        let mut after = true;
+        for n in 0..64u64 {
+            query_sender.send(QueryProtocol { id: 2 + n, query: Query::RoomNode(rid) }).await.unwrap();
+            after = served(tokio::time::timeout(std::time::Duration::from_secs(30), answers.recv()).await.ok().flatten());
+            if !after {
+                break;
+            }
+        }
         json!({"status": "done", "served_before": before, "served_after": after})
     })
 }
